@@ -199,7 +199,9 @@ def eval_two_groups(args):
                                               f'<xs:complexType name="T2"><xs:attributeGroup ref="t:G1"/><xs:attributeGroup ref="{ref2}"/></xs:complexType><xs:element name="two" type="t:T2"/>' +
                                               # XSD 1.1 (where every union is expressible): the wildcard of the second group comes in through an extension of a type that has the first
                                               (f'<xs:complexType name="B1"><xs:attributeGroup ref="t:G1"/></xs:complexType><xs:complexType name="E1"><xs:complexContent><xs:extension base="t:B1"><xs:attributeGroup ref="{ref2}"/>'
-                                               '</xs:extension></xs:complexContent></xs:complexType><xs:element name="ext" type="t:E1"/>' if ver == '1.1' else '') + '</xs:schema>')
+                                               '</xs:extension></xs:complexContent></xs:complexType><xs:element name="ext" type="t:E1"/>'
+                                               # ... and a plain user of the second group declared AFTER the extension: it admits what the group's own wildcard admits, no more
+                                               f'<xs:complexType name="P2"><xs:attributeGroup ref="{ref2}"/></xs:complexType><xs:element name="plain2" type="t:P2"/>' if ver == '1.1' else '') + '</xs:schema>')
         try: s = _cls(ver)(os.path.join(d, 'm.xsd'))
         except xmlschema.XMLSchemaException: return None
         w1 = dict(pool[g1]['w'], tns='urn:t'); w2 = dict(pool[g2]['w'], tns='urn:u' if foreign else 'urn:t'); bad = []
@@ -216,6 +218,10 @@ def eval_two_groups(args):
                 try: got = s.is_valid(doc.replace('<t:two ', '<t:ext '))
                 except Exception as e: got = 'raised ' + type(e).__name__
                 if got != exp: bad.append(('ext', name, got, exp))
+                exp = spec.denote_name(w2, name)
+                try: got = s.is_valid(doc.replace('<t:two ', '<t:plain2 '))
+                except Exception as e: got = 'raised ' + type(e).__name__
+                if got != exp: bad.append(('plain2', name, got, exp))
         return dict(args=args, bad=bad) if bad else False
     finally: shutil.rmtree(d, ignore_errors=True)
 
